@@ -1,4 +1,4 @@
-/* vercheck: calls the runtime's version gate.  argv[1] = "check"|"require", argv[2] = version, argv[3] = model
+/* vercheck: calls the runtime's version gate.  argv[1] = "check"|"require"|"checkseq", argv[2] = version (checkseq: argv[2..] versions), argv[3] = model
  * exit 0 = returned normally; abort (SIGABRT) = refused by the library. */
 #include <stdio.h>
 #include <string.h>
@@ -13,6 +13,15 @@ main(int argc, char *argv[])
 	if (strcmp(argv[1], "check") == 0) {
 		ovni_version_check_str(strcmp(argv[2], "@NULL") == 0 ? NULL : argv[2]);
 		printf("returned\n");
+		return 0;
+	}
+	if (strcmp(argv[1], "checkseq") == 0) {
+		/* several checks in one process, each decided on its own: prints "returned <i>" after each */
+		for (int i = 2; i < argc; i++) {
+			ovni_version_check_str(strcmp(argv[i], "@NULL") == 0 ? NULL : argv[i]);
+			printf("returned %d\n", i - 2);
+			fflush(stdout);
+		}
 		return 0;
 	}
 	if (strcmp(argv[1], "require") == 0) {
